@@ -19,38 +19,73 @@ static ALLOCS: AtomicU64 = AtomicU64::new(0);
 
 extern "C" {
     fn malloc(n: usize) -> *mut c_void;
-    fn calloc(n: usize, s: usize) -> *mut c_void;
-    fn realloc(p: *mut c_void, n: usize) -> *mut c_void;
     fn free(p: *mut c_void);
     fn memset(p: *mut c_void, c: i32, n: usize) -> *mut c_void;
 }
-/// Fresh memory is filled with 0xA5 so that a read of an uninitialised field is deterministic.
+/// The allocator the runtime is given (tree_sitter::set_allocator):
+///  * fresh memory is filled with 0xA5 (a read of an uninitialised field is deterministic),
+///  * freed memory is filled with 0xA5 before it goes back to libc (a read through a dangling pointer
+///    sees poison, not the old content "by luck"),
+///  * realloc ALWAYS moves (so every pointer into a grown array dangles, and reads poison),
+///  * the size lives in a 16-byte header in front of the block.
+const HDR: usize = 16;
+unsafe fn blk_new(n: usize, fill: Option<u8>) -> *mut c_void {
+    let base = malloc(n + HDR);
+    if base.is_null() {
+        return base;
+    }
+    *(base as *mut usize) = n;
+    *(base as *mut usize).add(1) = 0x7573_6564; // "used"
+    let p = (base as *mut u8).add(HDR) as *mut c_void;
+    if let Some(f) = fill {
+        memset(p, f as i32, n);
+    }
+    p
+}
+unsafe fn blk_size(p: *mut c_void) -> usize {
+    let base = (p as *mut u8).sub(HDR) as *mut usize;
+    if *base.add(1) != 0x7573_6564 {
+        // double free / free of a foreign pointer: memory-unsafe behaviour of the runtime
+        eprintln!("c07: free/realloc of a block that is not live (double free or foreign pointer)");
+        std::process::abort();
+    }
+    *base
+}
+unsafe fn blk_drop(p: *mut c_void) {
+    let n = blk_size(p);
+    let base = (p as *mut u8).sub(HDR);
+    *(base as *mut usize).add(1) = 0x6672_6565; // "free"
+    memset(p, 0xA5, n);
+    free(base as *mut c_void);
+}
 unsafe extern "C" fn c_malloc(n: usize) -> *mut c_void {
     LIVE.fetch_add(1, Ordering::SeqCst);
     ALLOCS.fetch_add(1, Ordering::Relaxed);
-    let p = malloc(n);
-    if !p.is_null() {
-        memset(p, 0xA5, n);
-    }
-    p
+    blk_new(n, Some(0xA5))
 }
 unsafe extern "C" fn c_calloc(n: usize, s: usize) -> *mut c_void {
     LIVE.fetch_add(1, Ordering::SeqCst);
     ALLOCS.fetch_add(1, Ordering::Relaxed);
-    calloc(n, s)
+    blk_new(n.saturating_mul(s), Some(0))
 }
 unsafe extern "C" fn c_realloc(p: *mut c_void, n: usize) -> *mut c_void {
     if p.is_null() {
-        LIVE.fetch_add(1, Ordering::SeqCst);
-        ALLOCS.fetch_add(1, Ordering::Relaxed);
+        return c_malloc(n);
     }
-    realloc(p, n)
+    let old = blk_size(p);
+    let q = blk_new(n, Some(0xA5));
+    if q.is_null() {
+        return q;
+    }
+    std::ptr::copy_nonoverlapping(p as *const u8, q as *mut u8, old.min(n));
+    blk_drop(p);
+    q
 }
 unsafe extern "C" fn c_free(p: *mut c_void) {
     if !p.is_null() {
         LIVE.fetch_sub(1, Ordering::SeqCst);
+        blk_drop(p);
     }
-    free(p)
 }
 
 fn guarded_parse(parser: &mut Parser, text: &[u8], old: Option<&Tree>, cancel_after: Option<u32>) -> Option<Tree> {
@@ -265,6 +300,129 @@ fn glr_text(rng: &mut Rng, stmts: usize) -> Vec<u8> {
 /// children, impossible child / field / alternation branch, anchors at group edges, bad
 /// predicates, damaged syntax) plus the valid ones.  The allocator must balance after EVERY
 /// `Query::new`, failure or success (a successful query is also executed once).
+/// Query-cursor workloads with MANY simultaneously in-progress states that hold captures, so that the
+/// capture-list pool grows past 8/16/32 lists while states are being split (ts_query_cursor__copy_state):
+/// sibling patterns `(P (K) @a (K) @b [(K) @c])`, quantifiers, alternations and wildcards over a node
+/// with 10..40 children.  Under the poisoning, always-moving allocator a read through a pointer into the
+/// old pool array yields poison (crash) or garbage (lost matches, wrong capture counts): reported as
+/// `memerr=`.  Expected counts are only asserted for the plain sibling patterns on error-free trees.
+fn query_cursor_load(b: &zoo::Built, lang_id: &str, seed: u64, info: &mut String) {
+    let lang = &b.language;
+    let mut rng = Rng::new(seed);
+    let gg = gen::GrammarGen::new(&b.grammar_json, zoo::read_zoo_file(lang_id, "samples.json").as_deref());
+    let mut parser = Parser::new();
+    parser.set_language(lang).unwrap();
+    let mut memerr: Option<String> = None;
+    for round in 0..6 {
+        let budget = [30, 60, 120, 200][rng.below(4)];
+        let toks = gg.sentence(&mut rng, budget);
+        let text = gg.render(&toks, &mut rng).0;
+        let Some(tree) = guarded_parse(&mut parser, &text, None, None) else { continue };
+        // the node with the most named children of one kind
+        let mut best: Option<(String, String, usize)> = None;
+        let mut second_kind: Option<String> = None;
+        let mut stack = vec![tree.root_node()];
+        let mut per_parent: Vec<(String, std::collections::BTreeMap<String, usize>)> = Vec::new();
+        while let Some(n) = stack.pop() {
+            let mut c = n.walk();
+            let mut m: std::collections::BTreeMap<String, usize> = std::collections::BTreeMap::new();
+            for ch in n.children(&mut c) {
+                if ch.is_named() && !ch.is_error() && !ch.is_missing() {
+                    *m.entry(ch.kind().to_string()).or_insert(0) += 1;
+                }
+                stack.push(ch);
+            }
+            for (k, &cnt) in &m {
+                if best.as_ref().map(|b| cnt > b.2).unwrap_or(true) && n.is_named() && !n.is_error() {
+                    best = Some((n.kind().to_string(), k.clone(), cnt));
+                    second_kind = m.keys().find(|x| *x != k).cloned();
+                }
+            }
+            if n.is_named() {
+                per_parent.push((n.kind().to_string(), m));
+            }
+        }
+        let Some((p, k, cnt)) = best else { continue };
+        if cnt < 2 || !p.chars().all(|c| c.is_ascii_alphanumeric() || c == '_') || !k.chars().all(|c| c.is_ascii_alphanumeric() || c == '_') {
+            continue;
+        }
+        let k2 = second_kind.filter(|x| x.chars().all(|c| c.is_ascii_alphanumeric() || c == '_')).unwrap_or_else(|| k.clone());
+        let clean = !tree.root_node().has_error();
+        let pairs: usize = per_parent.iter().filter(|(pk, _)| *pk == p).map(|(_, m)| { let n = *m.get(&k).unwrap_or(&0); n * n.saturating_sub(1) / 2 }).sum();
+        let triples: usize = per_parent.iter().filter(|(pk, _)| *pk == p).map(|(_, m)| { let n = *m.get(&k).unwrap_or(&0); if n < 3 { 0 } else { n * (n - 1) * (n - 2) / 6 } }).sum();
+        let mut pats: Vec<(String, Option<(usize, usize)>)> = vec![
+            (format!("({p} ({k}) @a ({k}) @b)"), if clean { Some((pairs, 2)) } else { None }),
+            (format!("({p} ({k})+ @a)"), None),
+            (format!("({p} ({k})* @a ({k}) @b)"), None),
+            (format!("({p} [({k}) ({k2})] @a ({k}) @b)"), None),
+            ("(_ (_) @a (_) @b)".to_string(), None),
+            (format!("(({k}) @a ({k}) @b)"), None),
+            (format!("({p} ({k}) @a ({k2})? @c ({k}) @b)"), None),
+        ];
+        if cnt <= 24 {
+            pats.push((format!("({p} ({k}) @a ({k}) @b ({k}) @c)"), if clean { Some((triples, 3)) } else { None }));
+        }
+        for (src, expect) in pats {
+            let Ok(q) = Query::new(lang, &src) else { continue };
+            for mode in 0..3 {
+                let mut qc = QueryCursor::new();
+                if mode == 2 {
+                    qc.set_match_limit([8u32, 16, 32, 64][rng.below(4)]);
+                }
+                let mut got = 0usize;
+                let mut badcaps = 0usize;
+                if mode == 1 {
+                    let mut it = qc.captures(&q, tree.root_node(), text.as_slice());
+                    while let Some((m, _)) = it.next() {
+                        got += 1;
+                        for c in m.captures {
+                            let r = c.node.byte_range();
+                            if r.end > text.len() || r.start > r.end || c.node.kind_id() as usize >= lang.node_kind_count() {
+                                badcaps += 1;
+                            }
+                        }
+                        if got > 200_000 {
+                            break;
+                        }
+                    }
+                } else {
+                    let mut it = qc.matches(&q, tree.root_node(), text.as_slice());
+                    while let Some(m) = it.next() {
+                        got += 1;
+                        if let Some((_, ncap)) = expect {
+                            if m.captures.len() != ncap {
+                                badcaps += 1;
+                            }
+                        }
+                        for c in m.captures {
+                            let r = c.node.byte_range();
+                            if r.end > text.len() || r.start > r.end || c.node.kind_id() as usize >= lang.node_kind_count() {
+                                badcaps += 1;
+                            }
+                        }
+                        if got > 200_000 {
+                            break;
+                        }
+                    }
+                    if mode == 0 && got <= 200_000 {
+                        if let Some((want, _)) = expect {
+                            if got != want && memerr.is_none() {
+                                memerr = Some(format!("query-cursor-lost-matches:round:{round}:got:{got}:want:{want}:pattern:{}", src.replace(' ', "_")));
+                            }
+                        }
+                    }
+                }
+                if badcaps > 0 && memerr.is_none() {
+                    memerr = Some(format!("query-cursor-garbage-captures:round:{round}:bad:{badcaps}:mode:{mode}:pattern:{}", src.replace(' ', "_")));
+                }
+            }
+        }
+    }
+    if let Some(m) = memerr {
+        info.push_str(&format!(" memerr={m}"));
+    }
+}
+
 fn near_queries(b: &zoo::Built, seed: u64, info: &mut String) {
     let lang = &b.language;
     let mut rng = Rng::new(seed);
@@ -495,6 +653,10 @@ fn transitions(b: &zoo::Built, lang_id: &str, other: &Language, seed: u64, info:
 fn history(kind: &str, lang_id: &str, b: &zoo::Built, seed: u64, thorough: bool, dump: &mut Option<String>, info: &mut String) {
     if kind == "nearquery" {
         near_queries(b, seed, info);
+        return;
+    }
+    if kind == "qcursor" {
+        query_cursor_load(b, lang_id, seed, info);
         return;
     }
     if kind == "transitions" {
@@ -933,6 +1095,84 @@ fn inl_case(out: &mut impl Write, cunit: &str, cid: &str, seed: u64, n: usize) {
     }
 }
 
+/// `ts_range_array_get_changed_ranges` on explicit range lists (numbers: n_old s e … n_new s e …).
+fn crx_case(out: &mut impl Write, cunit: &str, cid: &str, nums: &[&str]) {
+    let q = nums.join(" ");
+    let real = cunit_lines(cunit, &format!("cr {q}\n"));
+    writeln!(out, "spec {cid} crx {q}").unwrap();
+    writeln!(out, "crq {cid} {q} | {}", real.first().map(|s| s.as_str()).unwrap_or("cr fault=1 kind=died off=0 acc_old=1 acc_new=1 out=")).unwrap();
+}
+
+/// Random range lists, biased to the 32-bit edge (`UINT32_MAX` is the position of an exhausted list).
+fn cr_case(out: &mut impl Write, cunit: &str, cid: &str, seed: u64, n: usize) {
+    let mut rng = Rng::new(seed);
+    const MAX: u64 = 4294967295;
+    let mut list = |rng: &mut Rng| -> Vec<u64> {
+        let k = rng.below(4);
+        let mut v: Vec<u64> = (0..2 * k).map(|_| match rng.below(6) { 0 => MAX, 1 => MAX - rng.below(3) as u64, _ => rng.below(12) as u64 }).collect();
+        if !rng.chance(1, 8) {
+            v.sort();
+        }
+        v
+    };
+    writeln!(out, "spec {cid} cr {seed} {n}").unwrap();
+    let mut input = String::new();
+    let mut qs = Vec::new();
+    for _ in 0..n {
+        let (o, w) = (list(&mut rng), list(&mut rng));
+        let q = format!("{} {} {} {}", o.len() / 2, o.iter().map(|x| x.to_string()).collect::<Vec<_>>().join(" "), w.len() / 2, w.iter().map(|x| x.to_string()).collect::<Vec<_>>().join(" "));
+        let q = q.split_whitespace().collect::<Vec<_>>().join(" ");
+        input.push_str(&format!("cr {q}\n"));
+        qs.push(q);
+    }
+    let real = cunit_lines(cunit, &input);
+    for (k, q) in qs.iter().enumerate() {
+        writeln!(out, "crq {cid}.{k} {q} | {}", real.get(k).map(|s| s.as_str()).unwrap_or("cr fault=1 kind=died off=0 acc_old=1 acc_new=1 out=")).unwrap();
+    }
+}
+
+/// The real Lexer, scripted: `<hexdoc> <n> s e … | ops`.
+fn lxx_case(out: &mut impl Write, cunit: &str, cid: &str, words: &[&str]) {
+    let q = words.join(" ");
+    let real = cunit_lines(cunit, &format!("lx {q}\n"));
+    writeln!(out, "spec {cid} lxx {q}").unwrap();
+    writeln!(out, "lxq {cid} {q} | {}", real.first().map(|s| s.as_str()).unwrap_or("lx fault=1 kind=died off=0 acc=1 trace=")).unwrap();
+}
+
+/// Random lexer scripts in the shape the parser and an external scanner produce: rounds of
+/// reset — start — (get_column | advance | skip | mark_end | eof)* — finish, on short documents with
+/// included ranges that end at line starts, at the end of the document or beyond it.
+fn lx_case(out: &mut impl Write, cunit: &str, cid: &str, seed: u64, n: usize) {
+    let mut rng = Rng::new(seed);
+    writeln!(out, "spec {cid} lx {seed} {n}").unwrap();
+    let mut input = String::new();
+    let mut qs = Vec::new();
+    for _ in 0..n {
+        let len = rng.below(10);
+        let doc: Vec<u8> = (0..len).map(|_| *rng.pick(&[b'a', b'b', b'\n', b'\n', b' '])).collect();
+        let hex: String = if doc.is_empty() { "-".into() } else { doc.iter().map(|b| format!("{b:02x}")).collect() };
+        let k = 1 + rng.below(3);
+        let mut v: Vec<usize> = (0..2 * k).map(|_| rng.below(len + 3)).collect();
+        v.sort();
+        let mut ops: Vec<String> = Vec::new();
+        for _ in 0..1 + rng.below(3) {
+            ops.push(format!("R{}", rng.below(len + 1)));
+            ops.push("S".into());
+            for _ in 0..rng.below(7) {
+                ops.push(rng.pick(&["C", "A", "A", "K", "M", "E", "C"]).to_string());
+            }
+            ops.push("F".into());
+        }
+        let q = format!("{hex} {k} {} | {}", v.iter().map(|x| x.to_string()).collect::<Vec<_>>().join(" "), ops.join(" "));
+        input.push_str(&format!("lx {q}\n"));
+        qs.push(q);
+    }
+    let real = cunit_lines(cunit, &input);
+    for (k, q) in qs.iter().enumerate() {
+        writeln!(out, "lxq {cid}.{k} {q} | {}", real.get(k).map(|s| s.as_str()).unwrap_or("lx fault=1 kind=died off=0 acc=1 trace=")).unwrap();
+    }
+}
+
 /// Compile-time facts of the REAL headers, measured through the unity build: the largest value each
 /// size field of the inline subtree representation can hold (all-ones object read back through the
 /// runtime's own accessors) and the number of slots of a stack node's link array.
@@ -987,6 +1227,11 @@ fn main() {
                 specs.push(format!("hist transitions {lang} {}", rng.next() % 1_000_000_007));
             }
         }
+        for lang in ["lst", "c08scan", "jsonish", "stmt", "arith", "c07glr"] {
+            for _ in 0..(if thorough { 12 } else { 2 }) {
+                specs.push(format!("hist qcursor {lang} {}", rng.next() % 1_000_000_007));
+            }
+        }
         for _ in 0..(if thorough { 60 } else { 12 }) {
             specs.push(format!("arr {} {}", rng.next() % 1_000_000_007, rng.range(20, 120)));
         }
@@ -1002,12 +1247,16 @@ fn main() {
             specs.push(format!("ess {} {}", rng.next() % 1_000_000_007, 60));
         }
         specs.push("bits".to_string());
+        for _ in 0..(if thorough { 12 } else { 2 }) {
+            specs.push(format!("cr {} {}", rng.next() % 1_000_000_007, 150));
+            specs.push(format!("lx {} {}", rng.next() % 1_000_000_007, 150));
+        }
     }
     let mut langs_cache: std::collections::HashMap<String, Option<zoo::Built>> = std::collections::HashMap::new();
     let mut nhist = 0;
     for (i, line) in specs.iter().enumerate() {
         let f: Vec<&str> = line.split_whitespace().collect();
-        let f: Vec<&str> = if f.len() >= 2 && ["hist", "arr", "inl", "pw", "cl", "ess", "al", "bits"].contains(&f[1]) { f[1..].to_vec() } else { f };
+        let f: Vec<&str> = if f.len() >= 2 && ["hist", "arr", "inl", "pw", "cl", "ess", "al", "bits", "cr", "crx", "lx", "lxx"].contains(&f[1]) { f[1..].to_vec() } else { f };
         match f.as_slice() {
             ["hist", kind, lang, seed] => {
                 let b = langs_cache.entry(lang.to_string()).or_insert_with(|| zoo::load(lang).ok());
@@ -1043,6 +1292,10 @@ fn main() {
             ["pw", seed, n] => pw_case(&mut out, &cunit, &format!("p{i}"), seed.parse().unwrap(), n.parse().unwrap()),
             ["cl", seed, n] => cl_case(&mut out, &cunit, &format!("c{i}"), seed.parse().unwrap(), n.parse().unwrap()),
             ["ess", seed, n] => ess_case(&mut out, &cunit, &format!("e{i}"), seed.parse().unwrap(), n.parse().unwrap()),
+            ["cr", seed, n] => cr_case(&mut out, &cunit, &format!("r{i}"), seed.parse().unwrap(), n.parse().unwrap()),
+            ["lx", seed, n] => lx_case(&mut out, &cunit, &format!("x{i}"), seed.parse().unwrap(), n.parse().unwrap()),
+            ["crx", rest @ ..] => crx_case(&mut out, &cunit, &format!("r{i}"), rest),
+            ["lxx", rest @ ..] => lxx_case(&mut out, &cunit, &format!("x{i}"), rest),
             ["bits"] => bits_case(&mut out, &cunit, &format!("b{i}")),
             ["al", seed, n] => al_case(&mut out, &cunit, &format!("l{i}"), seed.parse().unwrap(), n.parse().unwrap()),
             _ => {}
